@@ -324,10 +324,18 @@ def r10_4(ctx, rc):
             if not isinstance(t, ast.Try):
                 continue
             for h in t.handlers:
-                if not any(isinstance(c, ast.Call) and any(
-                        isinstance(g, Func) and g.qualname == handoff
-                        for g in prog.resolve_call(c, f))
-                        for st in h.body for c in ast.walk(st)):
+                def hands_off(c, fn, depth=0):
+                    for g in prog.resolve_call(c, fn):
+                        if isinstance(g, Func) and g.qualname == handoff:
+                            return True
+                        if isinstance(g, Func) and g.cls == R.builder and \
+                                not g.is_public and depth < 2 and any(
+                                    hands_off(c2, g, depth + 1)
+                                    for c2 in prog.calls_in(g)):
+                            return True
+                    return False
+                if not any(isinstance(c, ast.Call) and hands_off(c, f)
+                           for st in h.body for c in ast.walk(st)):
                     continue
                 n += 1
                 names = ['BaseException'] if h.type is None else [
